@@ -1055,6 +1055,15 @@ impl Server {
                                     debug!("Server connection marked for clean up");
                                     self.cleanup_state.needs_cleanup_prepare = true;
                                 }
+
+                                // The client dropped every prepared statement of the session,
+                                // the ones we cached on this connection included.
+                                "DEALLOCATE ALL" | "DISCARD ALL" => {
+                                    if let Some(cache) = &mut self.prepared_statement_cache {
+                                        cache.clear();
+                                    }
+                                    self.evicted_prepared_statements.clear();
+                                }
                                 _ => (),
                             }
                         }
